@@ -23,13 +23,16 @@ import seeded as S  # noqa: E402
 os.environ['T2N_NO_TABLE_CACHE'] = '1'
 
 
-def with_patch(pdir):
+TARGET_ONLY = False      # --target-only: a seeded change is checked with the check of its own property only (18 x cheaper)
+
+
+def with_patch(pdir, prop=None):
     d = S.scratch_copy()
     try:
         ok, out = S.apply_patch(d, os.path.join(pdir, 'patch.diff'))
         if not ok:
             return None
-        return S.run_all_checks(d)
+        return S.run_one_check(d, prop) if prop else S.run_all_checks(d)
     finally:
         shutil.rmtree(d, ignore_errors=True)
 
@@ -37,12 +40,12 @@ def with_patch(pdir):
 def job_seeded(sid):
     pdir = os.path.join(S.SEEDED, sid)
     meta = json.load(open(os.path.join(pdir, 'meta.json')))
-    fired = with_patch(pdir)
+    target = meta.get('property')
+    fired = with_patch(pdir, target if TARGET_ONLY else None)
     if fired is None:
         return ('seeded', sid, 'does-not-apply', {}, meta.get('property'))
-    target = meta.get('property')
     status = 'CAUGHT' if target in fired else ('caught-by-other' if fired else 'MISSED')
-    json.dump({'property': target, 'status': status, 'fired': fired}, open(os.path.join(pdir, 'result.json'), 'w'), indent=1, ensure_ascii=False)
+    json.dump({'property': target, 'status': status, 'fired': fired, 'target_only': TARGET_ONLY}, open(os.path.join(pdir, 'result.json'), 'w'), indent=1, ensure_ascii=False)
     return ('seeded', sid, status, fired, target)
 
 
@@ -83,7 +86,10 @@ def main():
     ap.add_argument('--jobs', type=int, default=3)
     ap.add_argument('--only', default='seeded,refactor,equivalent')
     ap.add_argument('--ids', default='')
+    ap.add_argument('--target-only', action='store_true')
     a = ap.parse_args()
+    global TARGET_ONLY
+    TARGET_ONLY = a.target_only
     which = a.only.split(',')
     ids = [x for x in a.ids.split(',') if x]
     jobs = []
